@@ -89,13 +89,15 @@ func verifC08Run(ep int) {
 		or(len(verifCaps.plain) > 0, !verifCaps.httpsErr))
 	assert("exactly-one-response", w.wroteHeader == 1)
 	accepted := and(gateOK, identOK, docKind == 0)
+	undecodable := ghostCount("json.decode.failed") > 0
 	if len(verifDBCalls) > 0 {
-		assert("store-reached-only-by-wellformed-identified-json-request", and(gateOK, identOK, docKind != 2))
+		assert("store-reached-only-by-wellformed-identified-json-request", and(gateOK, identOK, !undecodable))
 	}
-	if !accepted {
-		if docKind != 1 {
-			assert("rejected-request-never-reaches-store", len(verifDBCalls) == 0)
-		}
+	if !and(gateOK, identOK) || undecodable {
+		assert("rejected-request-never-reaches-store", len(verifDBCalls) == 0)
+	}
+	if accepted {
+		assert("accepted-request-reaches-store", len(verifDBCalls) == 1)
 	}
 	if len(verifDBCalls) == 0 {
 		assert("rejected-non-2xx", or(w.status < 200, w.status > 299))
@@ -121,8 +123,12 @@ func verifC08Run(ep int) {
 	} else {
 		assert("permissions-from-legacy-capability-name", deepEq([]acl.Rule(call.caller.Permissions), verifCaps.https))
 	}
-	// dispatch
-	switch ep {
+	// dispatch (request fields are known only for the proper document)
+	epd := ep
+	if docKind != 0 {
+		epd = -1
+	}
+	switch epd {
 	case epGet:
 		want := "Get"
 		if ver != 0 {
